@@ -3,19 +3,32 @@ Span / Position).
 
 Tie T-text: the Lean model (PestTyped/Model/Text.lean, run by model_driver on `text …` case lines)
 against pest-typed built from /repo's current working tree (harness/text_runner), on the same cases.
-Oracles on the implementation: pest 2.7.14 (C12, C13), a specification-level recomputation in this file
-(C12), and an independent renderer inside the runner plus "no panic" (C14).
+Oracles on the implementation: pest 2.7.14 (C12, C13 — a bounded differential test against the code's own
+ancestor), a specification-level recomputation in this file (C12; C13 on the short and the extended
+strings, and alone where pest itself overflows), and an independent renderer inside the runner plus
+"no panic" (C14).
 
-The enumeration is exhaustive over each property's own quantifier (all strings up to a length over
-the property's alphabet x all offsets / spans / sub-ranges / span pairs); bulky observables travel as
-FNV-1a-64 digests and are re-run verbosely only when two sides disagree."""
-import concurrent.futures, os, random, shutil, subprocess
+Families per property (sizes in coverage.exhaustive_bound of the evidence file):
+* exhaustive over the property's own quantifier (all strings up to the stated length over the stated
+  alphabet x all offsets / spans / sub-ranges / span pairs) — in BOTH tiers;
+* short strings over an EXTENDED alphabet: TAB, VT, FF, NEL, U+2028/2029 (characters an edit could start
+  to treat as line breaks), zero-width space and combining acute (no display cell), 4-byte emoji (lead byte
+  0xF0, wide), NUL / DEL — next to line breaks;
+* seeded random longer texts over the extended alphabet; C12: texts beyond 2^16 bytes at sampled offsets;
+* C13: `get` / `new` with bounds up to usize::MAX in a debug AND a release build of the runner; two different
+  input objects (merge_spans, ==, Hash); spans with start > end built by Position::span (release);
+* C14: every one of the 33 control characters; texts of 12 / 101 / 1001 lines around the lines where the
+  number column widens; display() with custom options whose callbacks fail.
+
+Bulky observables travel as FNV-1a-64 digests and are re-run verbosely only when two sides disagree."""
+import concurrent.futures, os, random, re, shutil, subprocess
 from . import common
 from .common import BUILD, LEAN, VERIF, sh
 
 RUNNER_DIR = os.path.join(VERIF, "harness", "text_runner")
 TARGET = os.path.join(BUILD, "target")
 RUNNER = os.path.join(TARGET, "debug", "text_runner")
+RUNNER_RELEASE = os.path.join(TARGET, "release", "text_runner")
 DRIVER = os.path.join(LEAN, ".lake", "build", "bin", "model_driver")
 NPROC = min(16, os.cpu_count() or 4)
 
@@ -32,17 +45,35 @@ def unhex(h):
     return "" if h == "-" else bytes.fromhex(h).decode("utf-8")
 
 
-def build_runner():
-    """Builds harness/text_runner against /repo's CURRENT working tree (cargo is incremental)."""
+BUILD_NOTES = {}
+
+
+def build_runner(release=False):
+    """Builds harness/text_runner against /repo's CURRENT working tree (cargo is incremental); `release`: also the
+    release profile (no overflow checks), used for the `c13x` family."""
     shutil.copyfile("/repo/Cargo.lock", os.path.join(RUNNER_DIR, "Cargo.lock"))
+    # measure widths with the unicode-width pest_typed itself links: same version requirement as /repo/main/Cargo.toml,
+    # so that cargo unifies the two (a pin of the runner's own could select a second, different version)
+    m = re.search(r'^unicode-width\s*=\s*(?:\{[^}\n]*version\s*=\s*"([^"]+)"[^}\n]*\}|"([^"]+)")', open("/repo/main/Cargo.toml").read(), flags=re.M)
+    if m:
+        req = m.group(1) or m.group(2)
+        toml = os.path.join(RUNNER_DIR, "Cargo.toml")
+        cur = open(toml).read()
+        new = re.sub(r'^unicode-width\s*=.*$', f'unicode-width = "{req}"', cur, flags=re.M)
+        if new != cur:
+            open(toml, "w").write(new)
     env = dict(os.environ, CARGO_NET_OFFLINE="true", CARGO_TARGET_DIR=TARGET, CARGO_INCREMENTAL="0")
-    p = sh(["cargo", "build", "--offline", "-q"], cwd=RUNNER_DIR, env=env)
-    if p.returncode != 0:
-        # the source-included copy (custom FormatOption) may stop compiling after a change in /repo:
-        # fall back to the public API only (the runner then reports opt=default-only)
-        p2 = sh(["cargo", "build", "--offline", "-q", "--no-default-features"], cwd=RUNNER_DIR, env=env)
-        if p2.returncode != 0:
-            raise RuntimeError("text_runner does not build:\n" + p.stderr[-3000:])
+    BUILD_NOTES.pop("srcincl_error", None)
+    for prof in ([[]] + ([["--release"]] if release else [])):
+        p = sh(["cargo", "build", "--offline", "-q"] + prof, cwd=RUNNER_DIR, env=env)
+        if p.returncode != 0:
+            # the source-included copy (custom FormatOption) may stop compiling after a change in /repo: run the
+            # public API only (the runner then reports opt=default-only) — and SAY SO: check_C14 reports the lost
+            # observable as a broken tie, with this compiler output
+            p2 = sh(["cargo", "build", "--offline", "-q", "--no-default-features"] + prof, cwd=RUNNER_DIR, env=env)
+            if p2.returncode != 0:
+                raise RuntimeError("text_runner does not build:\n" + p.stderr[-3000:])
+            BUILD_NOTES["srcincl_error"] = p.stderr[-3000:]
     p = sh(["lake", "build", "model_driver"], cwd=LEAN)
     if p.returncode != 0:
         raise RuntimeError("model_driver does not build:\n" + (p.stdout + p.stderr)[-3000:])
@@ -119,6 +150,7 @@ def tie(ctx, name, cases, impl, model, keys, describe):
         if diff:
             bad.append((c, diff, i, m))
     ctx.ties[name] = {"cases": len(cases), "agree": len(cases) - len(bad), "observables": keys}
+    bad.sort(key=lambda x: len(x[0]) if isinstance(x[0], str) else sum(len(t) for t in x[0]))   # shortest inputs first
     if bad:
         ctx.tie_broken(name, {"disagreements": len(bad), "first": [describe(c, d, i, m) for c, d, i, m in bad[:5]]})
     return len(bad)
@@ -135,6 +167,10 @@ def first_diff(xs, ys):
 # C12
 
 C12_ALPHA = ["\n", "\r", "a", "é", "中", "\U0001F600"]
+# beyond the property's alphabet: characters an edit could start to treat as line breaks (VT, FF, NEL, LS, PS), as wide
+# columns (TAB, CJK, emoji) or as no column at all (zero-width space, combining acute)
+C12_EXTRA = ["\t", "\x0b", "\x0c", "\u0085", "\u2028", "\u2029", "\u200b", "\u0301"]
+C12_EXT = C12_ALPHA + C12_EXTRA
 
 
 def spec_line_col(b, p):
@@ -151,32 +187,52 @@ def spec_line_of(b, p):
 
 
 def check_C12(ctx):
-    n = 6 if ctx.tier == "quick" else 7
+    n = 7                                     # the property's own bound, in both tiers
+    next_ = 3 if ctx.tier == "quick" else 4
     nrand = 300 if ctx.tier == "quick" else 3000
+    nlong = 2 if ctx.tier == "quick" else 6
     ctx.rule_text = (f"T-text: all strings of length <= {n} over {{LF, CR, 'a', 2-byte, 3-byte, 4-byte char}} x every byte "
-                     f"offset 0..len+1 (Position::new) and every boundary offset (line_col, line_of), plus {nrand} seeded random "
-                     "texts of 20..400 characters with frequent CR/LF; an evaluation is one (string, offset) pair; non-trivial "
+                     f"offset 0..len+1 (Position::new) and every boundary offset (line_col, line_of); all strings of length <= "
+                     f"{next_} over that alphabet extended by TAB, VT, FF, NEL, U+2028, U+2029, zero-width space, combining acute; "
+                     f"{nrand} seeded random texts of 20..400 characters over the extended alphabet with frequent CR/LF; {nlong} "
+                     "texts of more than 2^16 bytes at sampled offsets; an evaluation is one (string, offset) pair; non-trivial "
                      "when the string contains a line break and the offset is not 0")
     build_runner()
     ins = strings(C12_ALPHA, n)
+    core = len(ins)
+    seen = set(ins)
+    ins += [s for s in strings(C12_EXT, next_) if s not in seen]
     rnd = random.Random(ctx.seed)
-    weights = [4, 3, 6, 2, 2, 1]
-    ins += ["".join(rnd.choices(C12_ALPHA, weights)[0] for _ in range(rnd.randint(20, 400))) for _ in range(nrand)]
+    weights = [6, 4, 6, 2, 2, 1] + [1] * len(C12_EXTRA)
+    ins += ["".join(rnd.choices(C12_EXT, weights)[0] for _ in range(rnd.randint(20, 400))) for _ in range(nrand)]
     lines = ["text c12 " + hexs(s) for s in ins]
+    # long texts (> 2^16 bytes): sampled offsets only (every operation is linear in the text)
+    longs = []
+    for _ in range(nlong):
+        t = "".join(rnd.choices(C12_EXT, weights)[0] for _ in range(rnd.randint(40000, 50000)))
+        bs = boundaries(t)
+        pick = sorted(set([0, 1, len(bs) - 2, len(bs) - 1] + [rnd.randrange(len(bs)) for _ in range(24)]
+                          + [k for k in range(len(bs)) if 65530 <= bs[k] <= 65540]))
+        longs.append((t, [bs[k] for k in pick]))
+        lines.append("text c12 " + hexs(t) + " " + ",".join(str(bs[k]) for k in pick))
     impl = [obs(l) for l in run_lines([RUNNER], lines)]
     model = [obs(l) for l in run_lines([DRIVER], lines)]
+    cases = ins + [t for t, _ in longs]
+    offsets = [None] * len(ins) + [o for _, o in longs]
     keys = ["t.new", "t.lc", "t.lo"]
-    tie(ctx, "T-text:position", ins, impl, model, keys,
-        lambda s, d, i, m: {"input": show(s), "keys": d, "impl": {k: i.get(k) for k in d}, "model": {k: m.get(k) for k in d}})
+    tie(ctx, "T-text:position", cases, impl, model, keys,
+        lambda s, d, i, m: {"input": show(s) if len(s) < 500 else show(s[:200]) + f"… ({len(s)} chars, seed {ctx.seed})", "keys": d,
+                            "impl": {k: i.get(k, "")[:300] for k in d}, "model": {k: m.get(k, "")[:300] for k in d}})
     names = {"new": "Position::new", "lc": "line_col", "lo": "line_of"}
-    for s, io in zip(ins, impl):
+    for s, offs, io in zip(cases, offsets, impl):
         b = s.encode("utf-8")
-        bs = boundaries(s)
-        ctx.evaluations += len(b) + 2 + 2 * len(bs)
+        bs = boundaries(s) if offs is None else offs
+        label = show(s) if len(s) < 500 else {"long_text_chars": len(s), "seed": ctx.seed, "hex_prefix": hexs(s[:64])}
+        ctx.evaluations += (len(b) + 2 if offs is None else 0) + 2 * len(bs)
         if "\n" in s or "\r" in s:
             ctx.nontrivial += 2 * (len(bs) - 1)
         if "t.lc" not in io:
-            violation(ctx, "C12 runner gave no answer", {"input": show(s)}, got=io)
+            violation(ctx, "C12 runner gave no answer", {"input": label}, got=io)
             continue
         if len(ctx.samples) < 5 and len(s) == n and "\r\n" in s:
             ctx.samples.append({"case": {"input": show(s)}, "impl": {k: io.get(k) for k in keys}})
@@ -185,49 +241,121 @@ def check_C12(ctx):
             if t != p:
                 if f == "new":
                     k = first_diff(t, p)
-                    violation(ctx, "C12 Position::new differs from pest", {"input": show(s), "offset": k},
+                    violation(ctx, "C12 Position::new differs from pest", {"input": label, "offset": k},
                               typed=t[k:k + 1], pest=p[k:k + 1])
                 else:
                     tl, pl = t.split(","), p.split(",")
                     k = first_diff(tl, pl)
-                    violation(ctx, f"C12 {names[f]} differs from pest", {"input": show(s), "offset": bs[k] if k < len(bs) else None},
+                    violation(ctx, f"C12 {names[f]} differs from pest", {"input": label, "offset": bs[k] if k < len(bs) else None},
                               typed=tl[k] if k < len(tl) else None, pest=pl[k] if k < len(pl) else None)
         # specification-level recomputation (independent of pest and of the model)
-        want_new = "".join("1" if (q <= len(b) and (q == len(b) or (b[q] & 0xC0) != 0x80)) else "0" for q in range(len(b) + 2))
-        if io["t.new"] != want_new:
-            k = first_diff(io["t.new"], want_new)
-            violation(ctx, "C12 Position::new is not 'Some exactly on character boundaries'", {"input": show(s), "offset": k},
-                      typed=io["t.new"][k:k + 1], expected=want_new[k:k + 1])
+        if offs is None:
+            want_new = "".join("1" if (q <= len(b) and (q == len(b) or (b[q] & 0xC0) != 0x80)) else "0" for q in range(len(b) + 2))
+            if io["t.new"] != want_new:
+                k = first_diff(io["t.new"], want_new)
+                violation(ctx, "C12 Position::new is not 'Some exactly on character boundaries'", {"input": label, "offset": k},
+                          typed=io["t.new"][k:k + 1], expected=want_new[k:k + 1])
         lc, lo = io["t.lc"].split(","), io["t.lo"].split(",")
         for k, q in enumerate(bs):
             if lc[k] == "P" or lo[k] == "P":
-                violation(ctx, "C12 line_col / line_of panics on a boundary offset", {"input": show(s), "offset": q},
+                violation(ctx, "C12 line_col / line_of panics on a boundary offset", {"input": label, "offset": q},
                           line_col=lc[k], line_of=lo[k])
                 continue
             wl, wc = spec_line_col(b, q)
             if lc[k] != f"{wl}:{wc}":
-                violation(ctx, "C12 line_col differs from the specification", {"input": show(s), "offset": q},
+                violation(ctx, "C12 line_col differs from the specification", {"input": label, "offset": q},
                           typed=lc[k], expected=f"{wl}:{wc}")
             ws, we = spec_line_of(b, q)
             if lo[k] != f"{ws}:{we}":
-                violation(ctx, "C12 line_of differs from the specification", {"input": show(s), "offset": q},
+                violation(ctx, "C12 line_of differs from the specification", {"input": label, "offset": q},
                           typed=lo[k], expected=f"{ws}:{we}")
-    ctx.coverage["strings"] = len(ins)
+    ctx.coverage["strings"] = len(cases)
+    ctx.coverage["exhaustive_bound"] = {"core_alphabet_max_length": n, "core_strings": core,
+                                        "extended_alphabet_max_length": next_, "stated_bound": 7}
+    ctx.coverage["pest_oracle"] = ("pest 2.7.14's position.rs is the textual ancestor of /repo's: 'agrees with pest' is a bounded "
+                                   "differential test; the independent oracle is the specification recomputation in checks/text.py")
 
 
 # ---------------------------------------------------------------------------------------------
 # C13
 
 C13_ALPHA = ["\n", "\r", "a", "é", "中"]
+# beyond the property's alphabet: a 4-byte character (lead byte 0xF0), other "line separators", TAB, a zero-width character
+C13_EXT = C13_ALPHA + ["\U0001F600", "\t", "\u0085", "\u2028", "\u200b"]
 C13_FIELDS = [("new", "Span::new"), ("str", "as_str"), ("split", "split/start/end"), ("lines", "lines"),
               ("ls", "lines_span"), ("get", "get"), ("merge", "merge_spans")]
+USIZE_MAX = 2 ** 64 - 1
 
 
-def c13_evals(s):
+def c13_evals(s, light=False):
     nb = len(s.encode("utf-8"))
     sp = spans_of(s)
+    if light:
+        return (nb + 2) ** 2 + 4 * len(sp)
     per = sum(4 * (b - a + 2) ** 2 + 4 * (b - a + 2) + 1 for a, b in sp)
     return (nb + 2) ** 2 + 4 * len(sp) + per + len(sp) ** 2
+
+
+def get_forms(bounds_x, bounds_y):
+    """The enumeration order of the `get` matrix: (lo kind, hi kind, x, y)."""
+    for lo in "ieu":
+        for hi in "ieu":
+            for x in ([0] if lo == "u" else bounds_x):
+                for y in ([0] if hi == "u" else bounds_y):
+                    yield lo, hi, x, y
+
+
+def show_bounds(lo, hi, x, y):
+    f = lambda k, v: {"i": f"Bound::Included({v})", "e": f"Bound::Excluded({v})", "u": "Bound::Unbounded"}[k]
+    return f"span.get(({f(lo, x)}, {f(hi, y)}))"
+
+
+def is_boundary(b, q):
+    return q <= len(b) and (q == len(b) or (b[q] & 0xC0) != 0x80)
+
+
+def spec_get(b, a, e, lo, hi, x, y):
+    """What `Span(a..e).get((lo x, hi y))` must be: the resolved offsets relative to the span start when they are
+    ordered, inside the span and on character boundaries; None otherwise — in particular when a bound does not fit."""
+    st = {"i": x, "e": x + 1, "u": 0}[lo]
+    en = {"i": y + 1, "e": y, "u": e - a}[hi]
+    if st > USIZE_MAX or en > USIZE_MAX:
+        return "-"
+    if st <= en <= e - a and is_boundary(b, a + st) and is_boundary(b, a + en):
+        return f"{a + st}:{a + en}"
+    return "-"
+
+
+def spec_line_table(b):
+    t, st = [], 0
+    for i, c in enumerate(b):
+        if c == 10:
+            t.append((st, i + 1))
+            st = i + 1
+    if st < len(b):
+        t.append((st, len(b)))
+    return t
+
+
+def spec_c13(s):
+    """Specification-level recomputation of the verbose `t.*` fields (independent of pest and of the model)."""
+    b = s.encode("utf-8")
+    nb = len(b)
+    sp = spans_of(s)
+    hx = lambda x: x.hex() if x else "-"
+    tab = spec_line_table(b)
+    out = {"t.new": "".join("1" if (x <= y and is_boundary(b, x) and is_boundary(b, y)) else "0"
+                            for x in range(nb + 2) for y in range(nb + 2)),
+           "t.str": ";".join(hx(b[x:y]) for x, y in sp),
+           "t.split": ";".join(f"{x}:{y}" for x, y in sp)}
+    # every line of the table meeting [start, end] (closed at `end`), in order
+    touched = [[(u, v) for u, v in tab if x < v and u <= y] for x, y in sp]
+    out["t.ls"] = ";".join(",".join(f"{u}:{v}" for u, v in t) for t in touched)
+    out["t.lines"] = ";".join(",".join(hx(b[u:v]) for u, v in t) for t in touched)
+    out["t.get"] = ";".join(",".join(spec_get(b, x, y, lo, hi, p, q) for lo, hi, p, q in
+                                     get_forms(range(y - x + 2), range(y - x + 2))) for x, y in sp)
+    out["t.merge"] = ",".join(f"{min(x, u)}:{max(y, v)}" if (y >= u and x <= v) else "-" for x, y in sp for u, v in sp)
+    return out
 
 
 def c13_locate(s, field, xs, ys):
@@ -236,7 +364,7 @@ def c13_locate(s, field, xs, ys):
     nb = len(s.encode("utf-8"))
     if field == "new":
         k = first_diff(xs, ys)
-        return {"start": k // (nb + 2), "end": k % (nb + 2)}, xs[k:k + 1], ys[k:k + 1]
+        return {"call": f"Span::new(input, {k // (nb + 2)}, {k % (nb + 2)})"}, xs[k:k + 1], ys[k:k + 1]
     if field == "merge":
         xl, yl = xs.split(","), ys.split(",")
         k = first_diff(xl, yl)
@@ -250,52 +378,201 @@ def c13_locate(s, field, xs, ys):
         return {"span": [a, b]}, xl[k], yl[k]
     gx, gy = xl[k].split(","), yl[k].split(",")
     j = first_diff(gx, gy)
-    idx = 0
-    L = b - a
-    for lo in "ieu":
-        for hi in "ieu":
-            for x in ([0] if lo == "u" else range(L + 2)):
-                for y in ([0] if hi == "u" else range(L + 2)):
-                    if idx == j:
-                        rng = {"i": f"Included({x})", "e": f"Excluded({x})", "u": "Unbounded"}[lo] + ", " + \
-                              {"i": f"Included({y})", "e": f"Excluded({y})", "u": "Unbounded"}[hi]
-                        return {"span": [a, b], "range": rng}, gx[j], gy[j]
-                    idx += 1
+    for idx, (lo, hi, x, y) in enumerate(get_forms(range(b - a + 2), range(b - a + 2))):
+        if idx == j:
+            return {"span": [a, b], "call": show_bounds(lo, hi, x, y)}, gx[j], gy[j]
     return {"span": [a, b]}, None, None
 
 
+def big_bounds(l, n):
+    v = []
+    for x in (0, l, l + 1, n, n + 1, USIZE_MAX - 1, USIZE_MAX):
+        if x not in v:
+            v.append(x)
+    return v
+
+
+C13X_NATIVE = ["span.get(..=usize::MAX)", "span.get(usize::MAX..)", "span.get(..usize::MAX)", "span.get(0..=usize::MAX)",
+               "span.get(usize::MAX..=usize::MAX)", "span.get(0..usize::MAX)", "span.get((Bound::Excluded(usize::MAX), Bound::Unbounded))"]
+C13X_NATIVE_FORMS = [("u", "i", 0, USIZE_MAX), ("i", "u", USIZE_MAX, 0), ("u", "e", 0, USIZE_MAX), ("i", "i", 0, USIZE_MAX),
+                     ("i", "i", USIZE_MAX, USIZE_MAX), ("i", "e", 0, USIZE_MAX), ("e", "u", USIZE_MAX, 0)]
+C13X_NEW = ["Span::new(input, usize::MAX, usize::MAX)", "Span::new(input, 0, usize::MAX)", "Span::new(input, usize::MAX, 0)",
+            "Span::new(input, len, usize::MAX)", "Span::new(input, usize::MAX-1, usize::MAX)", "Position::new(input, usize::MAX)",
+            "Position::new(input, usize::MAX-1)"]
+
+
+def c13x_family(ctx):
+    """`get` / `new` with bounds at the top of the usize range, in both build profiles; the oracle is the specification
+    (None, no panic) and the model's `Span.getU 64`; pest 2.7.14 itself overflows there and is not consulted."""
+    ins = strings(C13_ALPHA + ["\U0001F600"], 3)
+    lines = ["text c13x " + hexs(s) for s in ins]
+    model = [obs(l) for l in run_lines([DRIVER], lines)]
+    keys = ["t.gx", "t.gn", "t.nx", "t.nf", "t.iv"]
+    for build, exe in (("debug", RUNNER), ("release", RUNNER_RELEASE)):
+        impl = [obs(l) for l in run_lines([exe], lines)]
+        if any(io.get("build") != build for io in impl):
+            ctx.tie_broken("T-text:span-usize:" + build, {"error": "the runner does not report build=" + build, "got": impl[0]})
+            continue
+
+        def describe(s, d, i, m, build=build):
+            k = d[0]
+            xl, yl = i.get(k, "").replace(";", ",").split(","), m.get(k, "").replace(";", ",").split(",")
+            j = first_diff(xl, yl)
+            return {"input": show(s), "build": build, "field": k, "entry": j, "impl": xl[j] if j is not None and j < len(xl) else None,
+                    "model": yl[j] if j is not None and j < len(yl) else None}
+        # a span with start > end: `Position::span` builds it unchecked in release; with debug assertions the constructor
+        # panics (`debug_assert!` in `new_unchecked`), so the operations on it are observable in the release build only
+        bkeys = keys if build == "release" else [k for k in keys if k != "t.iv"]
+        tie(ctx, "T-text:span-usize:" + build, ins, impl, model, bkeys, describe)
+        for s, io in zip(ins, impl):
+            b = s.encode("utf-8")
+            sp = spans_of(s)
+            if "t.gx" not in io:
+                violation(ctx, "C13 runner gave no answer", {"input": show(s), "build": build}, got=io)
+                continue
+            gx, gn = io["t.gx"].split(";"), io["t.gn"].split(";")
+            for (x, y), g, gnat in zip(sp, gx, gn):
+                bb = big_bounds(y - x, len(b))
+                got = g.split(",")
+                forms = list(get_forms(bb, bb))
+                ctx.evaluations += len(forms) + len(C13X_NATIVE)
+                ctx.nontrivial += len(forms) + len(C13X_NATIVE)
+                for (lo, hi, p, q), r in zip(forms, got):
+                    want = spec_get(b, x, y, lo, hi, p, q)
+                    if r != want:
+                        what = ("C13 get panics for a bound at the top of the usize range" if r == "P" else
+                                "C13 get is not None for a range that does not fit the span")
+                        violation(ctx, what, {"input": show(s), "span": [x, y], "call": show_bounds(lo, hi, p, q), "build": build},
+                                  typed="panic" if r == "P" else r, expected=want)
+                for call, (lo, hi, p, q), r in zip(C13X_NATIVE, C13X_NATIVE_FORMS, gnat.split(",")):
+                    want = spec_get(b, x, y, lo, hi, p, q)
+                    if r != want:
+                        what = ("C13 get panics for a bound at the top of the usize range" if r == "P" else
+                                "C13 get is not None for a range that does not fit the span")
+                        violation(ctx, what, {"input": show(s), "span": [x, y], "call": call, "build": build},
+                                  typed="panic" if r == "P" else r, expected=want)
+            if io.get("t.nf") != f"0:{len(b)}":
+                violation(ctx, "C13 Span::new_full is not the span 0..len of the input", {"input": show(s), "build": build},
+                          typed=io.get("t.nf"), expected=f"0:{len(b)}")
+            if io.get("t.iv") != io.get("p.iv"):
+                tl, pl = io.get("t.iv", "").split(","), io.get("p.iv", "").split(",")
+                k = first_diff(tl, pl)
+                violation(ctx, "C13 operations on a span with start > end (built by Position::span) differ from pest",
+                          {"input": show(s), "build": build}, typed=tl[k] if k is not None and k < len(tl) else None,
+                          pest=pl[k] if k is not None and k < len(pl) else None)
+            for call, r in zip(C13X_NEW, io["t.nx"].split(",")):
+                ctx.evaluations += 1
+                if r != "-":
+                    violation(ctx, "C13 Span::new / Position::new at the top of the usize range is not None",
+                              {"input": show(s), "call": call, "build": build}, typed="panic" if r == "P" else r, expected="-")
+    ctx.coverage["usize_family"] = {"strings": len(ins), "profiles": ["debug (overflow checks)", "release (wrapping)"],
+                                    "bounds": "0, span_len, span_len+1, input_len, input_len+1, usize::MAX-1, usize::MAX"}
+
+
+def c13i_family(ctx):
+    """Spans of two DIFFERENT input objects: merge_spans, `==`, Hash."""
+    base = strings(["\n", "a", "é", "\U0001F600"], 2)
+    pairs = [(a, b) for a in base for b in base]
+    lines = [f"text c13i {hexs(a)} {hexs(b)}" for a, b in pairs]
+    impl = [obs(l) for l in run_lines([RUNNER], lines)]
+    model = [obs(l) for l in run_lines([DRIVER], lines)]
+    keys = ["t.xm", "t.xe", "t.se", "t.hc"]
+    tie(ctx, "T-text:span-identity", pairs, impl, model, keys,
+        lambda c, d, i, m: {"inputs": [show(c[0]), show(c[1])], "keys": d, "impl": {k: i.get(k, "")[:200] for k in d},
+                            "model": {k: m.get(k, "")[:200] for k in d}})
+    for (a, b), io in zip(pairs, impl):
+        if "t.xm" not in io:
+            violation(ctx, "C13 runner gave no answer", {"inputs": [show(a), show(b)]}, got=io)
+            continue
+        ba = a.encode("utf-8")
+        sa, sb = spans_of(a), spans_of(b)
+        ctx.evaluations += 2 * len(sa) * len(sb) + len(sa) ** 2
+        ctx.nontrivial += 2 * len(sa) * len(sb)
+        for f, name in (("xm", "merge_spans of spans of different inputs"), ("xe", "== of spans of different inputs"),
+                        ("se", "== of spans of one input")):
+            if io.get("t." + f) != io.get("p." + f):
+                violation(ctx, f"C13 {name} differs from pest", {"inputs": [show(a), show(b)]},
+                          typed=io.get("t." + f, "")[:200], pest=io.get("p." + f, "")[:200])
+        # specification: the hull, validated against and pointing into the FIRST span's input; identity-based equality
+        want = ",".join((f"{min(x, u)}:{max(y, v)}a" if (min(x, u) <= max(y, v) and is_boundary(ba, min(x, u)) and is_boundary(ba, max(y, v)))
+                         else "-") if (y >= u and x <= v) else "-" for x, y in sa for u, v in sb)
+        if io["t.xm"] != want:
+            xl, wl = io["t.xm"].split(","), want.split(",")
+            k = first_diff(xl, wl)
+            violation(ctx, "C13 merge_spans of spans of different inputs is not the hull on the first input",
+                      {"inputs": [show(a), show(b)], "a": list(sa[k // len(sb)]), "b": list(sb[k % len(sb)])}, typed=xl[k], expected=wl[k])
+        if "1" in io["t.xe"]:
+            k = io["t.xe"].index("1")
+            violation(ctx, "C13 spans of different input objects compare equal",
+                      {"inputs": [show(a), show(b)], "a": list(sa[k // len(sb)]), "b": list(sb[k % len(sb)])})
+        want_se = "".join("1" if p == q else "0" for p in sa for q in sa)
+        if io["t.se"] != want_se:
+            k = first_diff(io["t.se"], want_se)
+            violation(ctx, "C13 == of spans of one input is not equality of the offsets",
+                      {"input": show(a), "a": list(sa[k // len(sa)]), "b": list(sa[k % len(sa)])}, typed=io["t.se"][k], expected=want_se[k])
+        if io["t.hc"] != "1":
+            violation(ctx, "C13 equal spans hash differently", {"inputs": [show(a), show(b)]})
+    ctx.coverage["identity_family"] = {"input_pairs": len(pairs)}
+
+
 def check_C13(ctx):
-    n = 5 if ctx.tier == "quick" else 6
+    n = 6                                     # the property's own bound, in both tiers
+    nspec = 4
+    next_ = 3 if ctx.tier == "quick" else 4
+    nlong = 40 if ctx.tier == "quick" else 400
     ctx.rule_text = (f"T-text: all strings of length <= {n} over {{LF, CR, 'a', 2-byte, 3-byte char}} x all (start, end) in "
                      "0..len+1 (Span::new) x every valid span (as_str, split/start/end, lines, lines_span) x all nine bound forms "
                      "(Included/Excluded/Unbounded start and end) with both offsets in 0..span_len+1 (get) x all ordered pairs of "
-                     "valid spans (merge_spans); an evaluation is one call; non-trivial strings contain a line break or a "
+                     f"valid spans (merge_spans); the same for all strings of length <= {next_} over that alphabet extended by a 4-byte "
+                     f"character, TAB, NEL, U+2028, zero-width space; {nlong} seeded texts of 20..80 characters (lines / lines_span / "
+                     "as_str of every span); get / new with bounds up to usize::MAX in debug and release builds; merge_spans, == and "
+                     "Hash across two input objects; an evaluation is one call; non-trivial strings contain a line break or a "
                      "multi-byte character")
-    build_runner()
-    ins = strings(C13_ALPHA, n)
-    lines = [f"text c13 {hexs(s)} d" for s in ins]
+    build_runner(release=True)
+    core = strings(C13_ALPHA, n)
+    seen = set(core)
+    ext = [s for s in strings(C13_EXT, next_) if s not in seen]
+    rnd = random.Random(ctx.seed)
+    longs = ["".join(rnd.choices(C13_EXT, [5, 2, 5, 1, 1, 1, 1, 1, 1, 1])[0] for _ in range(rnd.randint(20, 80))) for _ in range(nlong)]
+    # verbose (so that the specification can be recomputed here): the short core strings and the extended family
+    verbose_set = [s for s in core if len(s) <= nspec] + ext
+    vset = set(verbose_set)
+    digest_set = [s for s in core if s not in vset]
+    ins = digest_set + verbose_set + longs
+    modes = ["d"] * len(digest_set) + ["v"] * len(verbose_set) + ["dl"] * len(longs)
+    lines = [f"text c13 {hexs(s)} {m}" for s, m in zip(ins, modes)]
     impl = [obs(l) for l in run_lines([RUNNER], lines)]
     model = [obs(l) for l in run_lines([DRIVER], lines)]
     keys = ["t." + f for f, _ in C13_FIELDS]
 
     def verbose(s):
-        line = [f"text c13 {hexs(s)} v"]
+        line = [f"text c13 {hexs(s)} v" + ("l" if len(s) > 12 else "")]
         return obs(run_lines([RUNNER], line)[0]), obs(run_lines([DRIVER], line)[0])
 
     def describe(s, d, i, m):
         vi, vm = verbose(s)
-        k = d[0]
+        k = next((k for k in d if vi.get(k) != vm.get(k)), d[0])
         where, x, y = c13_locate(s, k[2:], vi.get(k, ""), vm.get(k, ""))
         return {"input": show(s), "keys": d, "first": {"field": k, **where, "impl": x, "model": y}}
     tie(ctx, "T-text:span", ins, impl, model, keys, describe)
     reported = 0
-    for s, io in zip(ins, impl):
-        ev = c13_evals(s)
+    for s, mode, io in zip(ins, modes, impl):
+        ev = c13_evals(s, "l" in mode)
         ctx.evaluations += ev
         if any(ord(c) > 127 or c in "\r\n" for c in s):
             ctx.nontrivial += ev
-        if "t.get" not in io:
-            violation(ctx, "C13 runner gave no answer", {"input": show(s)}, got=io)
+        if "t.ls" not in io:
+            # the runner unwraps Span::new on every ordered pair of boundaries: if that failed, say which call
+            b = s.encode("utf-8")
+            want = "".join("1" if (x <= y and is_boundary(b, x) and is_boundary(b, y)) else "0"
+                           for x in range(len(b) + 2) for y in range(len(b) + 2))
+            got = io.get("t.new", "")
+            if got and not got.startswith("#") and got != want:
+                k = first_diff(got, want)
+                violation(ctx, "C13 Span::new differs from the specification",
+                          {"input": show(s), "call": f"Span::new(input, {k // (len(b) + 2)}, {k % (len(b) + 2)})"}, typed=got[k:k + 1], expected=want[k:k + 1])
+            else:
+                violation(ctx, "C13 runner gave no answer", {"input": show(s)}, got={k: v[:80] for k, v in io.items()})
             continue
         if io.get("t.np") != "0":
             vi, _ = verbose(s)
@@ -310,10 +587,28 @@ def check_C13(ctx):
                     violation(ctx, f"C13 {name} differs from pest", {"input": show(s), **where}, typed=x, pest=y)
                 else:
                     violation(ctx, f"C13 {name} differs from pest", {"input": show(s)})
+        if mode == "v":
+            # specification-level recomputation (independent of pest and of the model)
+            want = spec_c13(s)
+            for f, name in C13_FIELDS:
+                if io.get("t." + f) != want["t." + f]:
+                    where, x, y = c13_locate(s, f, io.get("t." + f, ""), want["t." + f])
+                    violation(ctx, f"C13 {name} differs from the specification", {"input": show(s), **where}, typed=x, expected=y)
+    c13x_family(ctx)
+    c13i_family(ctx)
+    # the replay shows the first violation: let it be one on a short input
+    ctx.violations.sort(key=lambda v: len(v["case"]["input"]) if isinstance(v["case"].get("input"), str) else
+                        sum(len(t) for t in v["case"].get("inputs", [])) if "inputs" in v["case"] else 10 ** 6)
     for s in ("a\nb\nc", "中\n\r\na"):
         vi, _ = verbose(s)
         ctx.samples.append({"case": {"input": show(s)}, "impl": {k: vi.get(k, "")[:160] for k in ("t.new", "t.lines", "t.ls", "t.merge")}})
     ctx.coverage["strings"] = len(ins)
+    ctx.coverage["exhaustive_bound"] = {"core_alphabet_max_length": n, "core_strings": len(core), "stated_bound": 6,
+                                        "extended_alphabet_max_length": next_, "extended_strings": len(ext),
+                                        "specification_recomputed_on": len(verbose_set), "long_texts": len(longs)}
+    ctx.coverage["pest_oracle"] = ("pest 2.7.14's span.rs is the textual ancestor of /repo's: 'agrees with pest' is a bounded differential "
+                                   "test; independent oracles: the specification recomputation (strings <= 4 and the extended family) and, "
+                                   "for bounds near usize::MAX where pest itself overflows, the specification alone")
 
 
 # ---------------------------------------------------------------------------------------------
@@ -337,75 +632,207 @@ def c14_what(kind, cls):
     return f"C14 {kind} display wrong: {cls[4:] if cls.startswith('bad:') else cls}"
 
 
+C14_CONTROLS = [chr(c) for c in range(0x20)] + ["\x7f"]
+# beyond the property's alphabet: other control characters (their pictures), characters WITHOUT a display cell
+# (zero-width space, combining acute; NEL / U+2028 count as such for unicode-width or not — whatever it says), a 4-byte wide
+# character; next to line breaks in the exhaustive short strings
+C14_EXT = C14_ALPHA + ["\x0b", "\x00", "\x7f", "\u0085", "\u2028", "\u200b", "\u0301", "\U0001F600"]
+
+
+def numbered_text(nlines, rnd, alpha):
+    return "".join("".join(rnd.choice(alpha) for _ in range(rnd.randint(0, 2))) + "\n" for _ in range(nlines - 1)) + "z"
+
+
+def selection_around(s, line_numbers):
+    """Spans and positions that start / end on the given 1-based lines (first byte, second byte, last byte)."""
+    b = s.encode("utf-8")
+    starts = [0] + [i + 1 for i, c in enumerate(b) if c == 10 and i + 1 < len(b)]
+    bs = set(boundaries(s))
+    offs = []
+    for n in line_numbers:
+        if 1 <= n <= len(starts):
+            u = starts[n - 1]
+            v = starts[n] if n < len(starts) else len(b)
+            offs += [q for q in (u, u + 1, v - 1, v) if q in bs]
+    offs = sorted(set(offs))
+    return [(x, y) for x in offs for y in offs if y >= x], offs
+
+
+FAIL_MARKS = {1: ("<S:", "<S!"), 2: ("<M:", "<M!"), 3: ("<N:|>", "<N!"), 4: (None, "<N!")}
+
+
+def spec_failing(full, which):
+    """What display() with the `which`-th failing option must have written, given the full bracketed rendering: everything
+    up to the first call of the failing callback, its mark, and Err; the whole rendering and Ok when it is never called."""
+    if which == 4:
+        k, pos = 0, -1
+        while True:
+            k = full.find("<N:", k)
+            if k < 0:
+                break
+            if not full.startswith("<N:|>", k):
+                pos = k
+                break
+            k += 3
+    else:
+        pos = full.find(FAIL_MARKS[which][0])
+    if pos < 0:
+        return full, "K"
+    return full[:pos] + FAIL_MARKS[which][1], "E"
+
+
+def c14e_family(ctx, wt, custom):
+    """display() with a custom option one of whose callbacks returns Err: `?` must stop there, keep what was written, and
+    return Err — never panic.  Tie with the model's `displaySpanE` / `displayPositionE`; oracle: prefix of the full rendering."""
+    if not custom:
+        return
+    ins = strings(C14_ALPHA, 4) + [c + "\n" + c + "x" for c in C14_CONTROLS] + strings(["\n", "\u200b", "\U0001F600", "a"], 3)
+    ins = list(dict.fromkeys(ins))
+    lines = [f"text c14e {hexs(s)} {wt}" for s in ins]
+    impl = [obs(l) for l in run_lines([RUNNER], lines)]
+    model = [obs(l) for l in run_lines([DRIVER], lines)]
+    tie(ctx, "T-text:display-failing-callback", ins, impl, model, ["t.es", "t.ep"],
+        lambda s, d, i, m: {"input": show(s), "keys": d, "impl": {k: i.get(k, "")[:300] for k in d}, "model": {k: m.get(k, "")[:300] for k in d}})
+    for s, io in zip(ins, impl):
+        if "t.es" not in io:
+            violation(ctx, "C14 runner gave no answer", {"input": show(s)}, got=io)
+            continue
+        for kind, items, got, full in (("span", spans_of(s), io["t.es"], io["full.s"]), ("position", boundaries(s), io["t.ep"], io["full.p"])):
+            for it, g, f in zip(items, got.split(","), full.split(",")):
+                case = {"input": show(s), "span": list(it)} if kind == "span" else {"input": show(s), "offset": it}
+                if f == "panic":
+                    continue                      # reported by the main family
+                fulltext = unhex(f)
+                for which, r in enumerate(g.split("|"), start=1):
+                    ctx.evaluations += 1
+                    ctx.nontrivial += 1
+                    name = {1: "span", 2: "marker", 3: "number (on the bar)", 4: "number (on a line number)"}[which]
+                    if r == "panic":
+                        violation(ctx, "C14 display with a failing callback panics", {**case, "failing_callback": name})
+                        continue
+                    h, _, res = r.rpartition(":")
+                    want, wres = spec_failing(fulltext, which)
+                    if unhex(h) != want or res != wres:
+                        violation(ctx, "C14 display with a failing callback does not stop at the first Err",
+                                  {**case, "failing_callback": name}, written=unhex(h), result=res, expected=want, expected_result=wres)
+    ctx.coverage["failing_callback_family"] = {"strings": len(ins), "options": 4}
+
+
 def check_C14(ctx):
-    n = 5 if ctx.tier == "quick" else 6
-    nlong = 400 if ctx.tier == "quick" else 4000
+    n = 6                                     # the property's own bound, in both tiers
+    next_ = 3 if ctx.tier == "quick" else 4
+    nlong = 200 if ctx.tier == "quick" else 3000
     ctx.rule_text = (f"T-text: all strings of length <= {n} over {{LF, CR, TAB, 'a', wide CJK, 2-byte letter}} (the empty string "
-                     f"included) x all valid spans and all boundary positions, plus {nlong} seeded texts of 6..16 lines (more than "
-                     "five lines, two-digit line numbers); Display (default option, real crate) and display() with a bracketing "
-                     "FormatOption (source-included copy, the type is not exported); an evaluation is one rendering; non-trivial "
-                     "when the input has more than one line or a control / wide character")
+                     f"included) x all valid spans and all boundary positions; the same for all strings of length <= {next_} over that "
+                     "alphabet extended by VT, NUL, DEL, NEL, U+2028, zero-width space, combining acute, a 4-byte emoji; every one of the "
+                     f"33 control characters in three contexts; {nlong} seeded texts of 6..16 lines over the extended alphabet; texts of "
+                     "12, 101 and 1001 lines at spans / positions around the lines where the number column widens (9/10, 99/100, "
+                     "999/1000); Display (default option, real crate) and display() with a bracketing FormatOption (source-included "
+                     "copy, the type is not exported); an evaluation is one rendering; non-trivial when the input has more than one "
+                     "line or a control / wide / zero-width character")
     build_runner()
-    wt = obs(run_lines([RUNNER], ["text w " + hexs("".join(C14_ALPHA) + "0123456789 |^v.")])[0]).get("w", "")
-    ins = strings(C14_ALPHA, n)
+    wt = obs(run_lines([RUNNER], ["text w " + hexs("".join(C14_EXT) + "".join(C14_CONTROLS) + "0123456789 |^v.z")])[0]).get("w", "")
+    core = strings(C14_ALPHA, n)
+    seen = set(core)
+    ext = [s for s in strings(C14_EXT, next_) if s not in seen]
+    ctrl = [t for c in C14_CONTROLS for t in (c, "a" + c + "b", c + "\n" + c + "x") if t not in seen]
     rnd = random.Random(ctx.seed)
+    longs = []
     for _ in range(nlong):
         nl = rnd.randint(6, 16)
-        ins.append("".join("".join(rnd.choice(C14_ALPHA[1:]) for _ in range(rnd.randint(0, 3))) + "\n" for _ in range(nl))
-                   + rnd.choice(["", "a", "中\t"]))
-    lines = [f"text c14 {hexs(s)} d {wt}" for s in ins]
+        longs.append("".join("".join(rnd.choice(C14_EXT[1:]) for _ in range(rnd.randint(0, 3))) + "\n" for _ in range(nl))
+                     + rnd.choice(["", "a", "中\t", "\u200b"]))
+    # the number column: 1 -> 2 -> 3 -> 4 digits (first in the list: the 1001-line text is the slowest single case)
+    ins, sels = [], []
+    for nl, around in ((1001, [1, 999, 1000, 1001]), (101, [1, 9, 10, 99, 100, 101]), (12, [1, 9, 10, 11, 12])):
+        t = numbered_text(nl, rnd, ["a", "中", "\t", "\u200b"])
+        sp, ps = selection_around(t, around)
+        ins.append(t)
+        sels.append((sp, ps))
+    ins += core + ext + ctrl + longs
+    sels += [None] * (len(ins) - len(sels))
+    lines = []
+    for s, sel in zip(ins, sels):
+        l = f"text c14 {hexs(s)} d {wt}"
+        if sel:
+            l += " " + ",".join(f"{a}:{b}" for a, b in sel[0]) + ";" + ",".join(str(q) for q in sel[1])
+        lines.append(l)
     impl = [obs(l) for l in run_lines([RUNNER], lines)]
     model = [obs(l) for l in run_lines([DRIVER], lines)]
     keys = ["t.sd", "t.sb", "t.pd", "t.pb"]
-    custom = all(io.get("opt") == "custom" for io in impl)
+    custom = all(io.get("opt") == "custom" for io in impl) and "srcincl_error" not in BUILD_NOTES
+    ctx.ties["T-text:custom-FormatOption"] = {"cases": len(ins), "agree": len(ins) if custom else 0, "observables": [
+        "display() with a custom FormatOption: formatter.rs / position.rs / span.rs of /repo's working tree compiled into the runner "
+        "(#[path]) because the type is not exported"]}
     if not custom:
         keys = ["t.sd", "t.pd"]
-        ctx.assumptions.append("custom FormatOption not reachable (source inclusion failed): only the default option was run")
+        # LOUD: the custom-option observable is lost; the default option is still checked below
+        ctx.tie_broken("T-text:custom-FormatOption", {
+            "error": "the source-included copy of formatter.rs / position.rs / span.rs no longer compiles inside harness/text_runner: "
+                     "display() with a custom FormatOption was NOT exercised in this run (adapt the #[path] block of "
+                     "harness/text_runner/src/main.rs to the new module dependencies)",
+            "compiler": BUILD_NOTES.get("srcincl_error", "")[-1500:]})
 
-    def verbose(s):
-        line = [f"text c14 {hexs(s)} v {wt}"]
-        return obs(run_lines([RUNNER], line)[0]), obs(run_lines([DRIVER], line)[0])
+    def verbose(s, sel, with_model=True):
+        l = f"text c14 {hexs(s)} v {wt}"
+        if sel:
+            l += " " + ",".join(f"{a}:{b}" for a, b in sel[0]) + ";" + ",".join(str(q) for q in sel[1])
+        return obs(run_lines([RUNNER], [l])[0]), (obs(run_lines([DRIVER], [l])[0]) if with_model else None)
+    sel_of = {s: sel for s, sel in zip(ins, sels) if sel}
+    label = lambda s: show(s) if len(s) < 300 else {"lines": s.count("\n") + 1, "seed": ctx.seed, "hex_prefix": hexs(s[:40])}
 
     def describe(s, d, i, m):
-        vi, vm = verbose(s)
-        k = d[0]
+        sel = sel_of.get(s)
+        vi, vm = verbose(s, sel)
+        k = next((k for k in d if vi.get(k) != vm.get(k)), d[0])
         xl, yl = vi.get(k, "").split(","), vm.get(k, "").split(",")
         j = first_diff(xl, yl)
-        what = spans_of(s)[j] if k in ("t.sd", "t.sb") else boundaries(s)[j]
+        sp, ps = sel if sel else (spans_of(s), boundaries(s))
+        what = sp[j] if k in ("t.sd", "t.sb") else ps[j]
         dec = lambda h: h if h in ("panic", None) else show(unhex(h))
-        return {"input": show(s), "keys": d, "first": {"field": k, "at": what, "impl": dec(xl[j]), "model": dec(yl[j])}}
+        return {"input": label(s), "keys": d, "first": {"field": k, "at": what, "impl": dec(xl[j]), "model": dec(yl[j])}}
     tie(ctx, "T-text:display", ins, impl, model, keys, describe)
-    nonadd = [show(s) for s, io in zip(ins, impl) if io.get("wadd") != "1"]
+    nonadd = [label(s) for s, io in zip(ins, impl) if io.get("wadd") != "1"]
     ctx.ties["T-text:width-additive"] = {"cases": len(ins), "agree": len(ins) - len(nonadd), "observables": ["wadd"]}
     if nonadd:
         ctx.tie_broken("T-text:width-additive", {"disagreements": len(nonadd), "first": nonadd[:5]})
     detailed = {}
-    for s, io in zip(ins, impl):
-        sp, bs = spans_of(s), boundaries(s)
+    order = sorted(range(len(ins)), key=lambda k: len(ins[k]))      # short inputs first: they get the rendered detail
+    for s, sel, io in ((ins[k], sels[k], impl[k]) for k in order):
+        sp, bs = sel if sel else (spans_of(s), boundaries(s))
         ctx.evaluations += 2 * (len(sp) + len(bs))
-        if s.count("\n") and not s.endswith("\n") or s.count("\n") > 1 or any(c in "\r\t中" for c in s):
+        if s.count("\n") and not s.endswith("\n") or s.count("\n") > 1 or any(ord(c) < 32 or ord(c) > 126 for c in s):
             ctx.nontrivial += 2 * (len(sp) + len(bs))
         if "cls.s" not in io:
-            violation(ctx, "C14 runner gave no answer", {"input": show(s)}, got=io)
+            violation(ctx, "C14 runner gave no answer", {"input": label(s)}, got=io)
             continue
-        cs, cp = io["cls.s"].split(","), io["cls.p"].split(",")
+        cs, cp = io["cls.s"].split(",") if io["cls.s"] else [], io["cls.p"].split(",") if io["cls.p"] else []
         for kind, classes, items in (("span", cs, sp), ("position", cp, bs)):
-            for cls, it in zip(classes, items):
+            for k, (cls, it) in enumerate(zip(classes, items)):
                 if cls == "ok":
                     continue
                 what = c14_what(kind, cls)
-                case = {"input": show(s), "span": list(it)} if kind == "span" else {"input": show(s), "offset": it}
+                case = {"input": label(s), "span": list(it)} if kind == "span" else {"input": label(s), "offset": it}
                 extra = {}
-                if detailed.get(what, 0) < 3:
+                # the rendering, for the first three cases of each class (short inputs first: the known class F-FMT-3
+                # occurs on every multi-line text, the big ones need not be rendered again for it)
+                if detailed.get(what, 0) < 3 and (len(s) < 300 or cls != "from-previous-line"):
                     detailed[what] = detailed.get(what, 0) + 1
-                    vi, _ = verbose(s)
-                    k = items.index(it)
+                    vi, _ = verbose(s, sel, with_model=False)
                     h = vi.get("t.sd" if kind == "span" else "t.pd", "").split(",")[k]
                     extra["rendered"] = h if h == "panic" else unhex(h)
+                    if len(s) >= 300:
+                        extra["input_hex"] = hexs(s)
                 violation(ctx, what, case, **extra)
+    c14e_family(ctx, wt, custom)
+    # the replay shows the first violation: let it be one on a short input
+    ctx.violations.sort(key=lambda v: len(v["case"]["input"]) if isinstance(v["case"].get("input"), str) else 10 ** 6)
     for s in ("ab\ncd", "中\ta\r\nb"):
-        vi, _ = verbose(s)
+        vi, _ = verbose(s, None, with_model=False)
         ctx.samples.append({"case": {"input": show(s), "span": list(spans_of(s)[1])},
                             "impl": {"rendered": unhex(vi.get("t.sd", "-").split(",")[1]) if vi.get("t.sd") else None}})
     ctx.coverage["strings"] = len(ins)
     ctx.coverage["custom_format_option"] = custom
+    ctx.coverage["exhaustive_bound"] = {"core_alphabet_max_length": n, "core_strings": len(core), "stated_bound": 6,
+                                        "extended_alphabet_max_length": next_, "extended_strings": len(ext),
+                                        "control_characters_rendered": len(C14_CONTROLS), "line_count_texts": [12, 101, 1001]}
